@@ -11,5 +11,6 @@ import GlmVerif.Props.C10
 import GlmVerif.Props.C12
 import GlmVerif.Props.C13
 import GlmVerif.Props.C14
+import GlmVerif.Props.C16
 import GlmVerif.Props.C17
 import GlmVerif.Props.C19
